@@ -489,3 +489,42 @@ where
     };
     newton_raphson_onesided(x0, f0, f1)
 }
+
+// ---------------------------------------------------------
+// verification hooks: read-only access to crate-private
+// barrier calculus (compiled only with --cfg clarabel_verif)
+// ---------------------------------------------------------
+#[cfg(clarabel_verif)]
+#[allow(missing_docs)]
+impl<T: FloatT> PowerCone<T> {
+    pub fn verif_is_primal_feasible(&self, s: &[T]) -> bool {
+        NonsymmetricCone::is_primal_feasible(self, s)
+    }
+    pub fn verif_is_dual_feasible(&self, z: &[T]) -> bool {
+        NonsymmetricCone::is_dual_feasible(self, z)
+    }
+    pub fn verif_barrier_primal(&mut self, s: &[T]) -> T {
+        NonsymmetricCone::barrier_primal(self, s)
+    }
+    pub fn verif_barrier_dual(&mut self, z: &[T]) -> T {
+        NonsymmetricCone::barrier_dual(self, z)
+    }
+    pub fn verif_update_dual_grad_H(&mut self, z: &[T]) {
+        NonsymmetricCone::update_dual_grad_H(self, z)
+    }
+    pub fn verif_higher_correction(&mut self, ds: &[T], v: &[T]) -> Vec<T> {
+        let mut η = vec![T::zero(); ds.len()];
+        NonsymmetricCone::higher_correction(self, &mut η, ds, v);
+        η
+    }
+    pub fn verif_gradient_primal(&self, s: &[T]) -> Vec<T> {
+        Nonsymmetric3DCone::gradient_primal(self, s).to_vec()
+    }
+    /// stored dual gradient, dual Hessian (dense 3x3), scaling matrix Hs (dense 3x3), stored z
+    pub fn verif_state(&self) -> (Vec<T>, Vec<Vec<T>>, Vec<Vec<T>>, Vec<T>) {
+        let dense = |M: &DenseMatrixSym3<T>| -> Vec<Vec<T>> {
+            (0..3).map(|i| (0..3).map(|j| M[(i, j)]).collect()).collect()
+        };
+        (self.grad.to_vec(), dense(&self.H_dual), dense(&self.Hs), self.z.to_vec())
+    }
+}
